@@ -110,7 +110,14 @@ def check_ds(c, rec):
   rng = np.random.default_rng(c["hseed"])
   shape, block = tuple(c["shape"]), c["block"]
   slices = SH.block_slices(shape, block)
-  hist, scales = make_hist(rng, shape, slices, c["T"], -6, 6)
+  import jax
+  # The eigh routine reports an ABSOLUTE eigen-decomposition residual (~ n * u * lambda_max).  In float32 at statistics of scale
+  # >= 1e6 that figure is rounding noise of the order of the acceptance threshold (0.1) or far above it, and whether a root is
+  # accepted is decided by the noise of the particular batch arrangement (observed: 4598 alone, exactly 0.0 when padded next to a
+  # companion).  Block independence cannot be judged where the gate itself is decided by rounding (DESIGN 2.4 rule 4): float32
+  # eigh cases keep the leaf's gradient scales <= 10 (residual <= 1e-4), all other cases span 1e-6..1e6.
+  hi = 1 if (c["eigh"] and not jax.config.jax_enable_x64) else 6
+  hist, scales = make_hist(rng, shape, slices, c["T"], -6, hi)
   wit = dict(c)
   cfg = dict(block_size=block, graft_type=c["graft"], start_preconditioning_step=0, beta1=0.0, nesterov=False, learning_rate=1.0,
              merge_small_dims_block_size=1, best_effort_shape_interpretation=False, skip_preconditioning_rank_lt=0,
